@@ -100,11 +100,9 @@ theorem NameAt.okLabels {p : Bytes} {bar low off refs e : Nat} {ls : List (List 
     · exact hl.okLabels l h
     · exact ih l h
 
-/-- the pointer-free encoding of a valid name is itself a valid name, with the same labels -/
-theorem validName_enc {p : Bytes} {off e : Nat} {ls : List (List UInt8)} (h : ValidName p off ls e) :
-    ValidName (encLabels ls ++ [0]) 0 ls (labSum ls + 1) := by
-  obtain ⟨_, hn, hw, hg⟩ := h
-  have hok := hn.okLabels
+/-- the pointer-free encoding of labels within the limits is a valid name with those labels -/
+theorem validName_of_enc {ls : List (List UInt8)} (hok : ∀ l ∈ ls, okLabel l) (hw : wireLen ls ≤ 255)
+    (hg : ∀ l ∈ ls, goodChars l = true) : ValidName (encLabels ls ++ [0]) 0 ls (labSum ls + 1) := by
   have hlen : (encLabels ls ++ [0]).length = labSum ls + 1 := by simp [encLabels_length]
   have hl := Labels.of_encLabels [] ls [0] (labSum ls + 1) hok (by simp)
   simp only [List.nil_append, List.length_nil, Nat.zero_add] at hl
@@ -114,5 +112,10 @@ theorem validName_enc {p : Bytes} {off e : Nat} {ls : List (List UInt8)} (h : Va
   have : labSum ls = (encLabels ls).length := (encLabels_length ls).symm
   rw [this, byteAt_append_right0]
   rfl
+
+/-- the pointer-free encoding of a valid name is itself a valid name, with the same labels -/
+theorem validName_enc {p : Bytes} {off e : Nat} {ls : List (List UInt8)} (h : ValidName p off ls e) :
+    ValidName (encLabels ls ++ [0]) 0 ls (labSum ls + 1) :=
+  validName_of_enc h.2.1.okLabels h.2.2.1 h.2.2.2
 
 end Dns
